@@ -92,6 +92,15 @@ CLAIMED["C09"]["text"] += ' Also: cold-start restarts (informers listing one aft
 CLAIMED["C10"]["text"] += ' Includes a parallel Job with one bound Pod stuck terminating past the force-delete timeout while its sibling runs.'
 CLAIMED["C12"]["text"] += ' Includes kills of Jobs already finished by an admission error while recorded tasks of other indexes live (foreign Pod on the name of attempt 0 or of the first retry), and a parallel Job with a stuck Pod that is force-deleted.'
 CLAIMED["C15"]["text"] += ' Includes a cold-start restart (JobConfig and Job informers listing in either order).'
+CLAIMED["C01"]["text"] += ' A further unit lets time pass while Work() runs (the clock advances at every reading, 50 ms / 300 ms / 1.1 s): Work() must return, nothing is requested early or twice.'
+CLAIMED["C04"]["text"] += ' The product also has a standby variant: controller objects constructed an hour before they are initialised and run.'
+CLAIMED["C14"]["text"] += ' Two more units: every ordered pair of 8 parallelism specs as an update of an admitted Job (started or not) must be refused; every combination of the three forms absent / present-but-empty / given must, if admitted, expand to the indexes of the one form that is given.'
+CLAIMED["C16"]["text"] += " One JobConfig is stored undefaulted; after every admission the JobConfigs in the webhook's informer cache must be byte-identical to what the informer stored."
+CLAIMED["C17"]["text"] += " JobConfig shapes include job templates carrying furiko's own label/annotation keys and a finalizer."
+CLAIMED["C18"]["text"] += ' The pod template also references unknown reserved-prefix variables with hyphens, slashes-free odd names and a user variable set to the empty string.'
+CLAIMED["C06"]["text"] += ' Includes a limit-1 scenario with a preemption point between the decisions for two queued Jobs.'
+CLAIMED["C07"]["text"] += " The clock also visits the instant 400 ms before every pending startAfter (a sibling Job's event causes a sync then)."
+CLAIMED["C13"]["text"] += " Includes a Job submitted with somebody else's finalizer that is released after deletion."
 CLAIMED["C04"]["note"] = "A crash before the first-ever schedule time was recorded loses that time by design (never scheduled => not back-scheduled); counted in the evidence, not reported."
 PENDING_REASON = "check not built yet in this session (planned, see DESIGN.md section 4)"
 
